@@ -62,7 +62,11 @@ pub fn run_case(ctx: &Ctx, rep: &mut Report, judge: Judge, case: &Case) {
     rep.count("max_lpc", format!("{:?}", cfg.max_lpc));
     rep.count("max_part", cfg.max_part);
     let prop = if judge == Judge::CrateDecoders { "C01" } else { "C02" };
-    let obs = mon::observe(|| encode(cfg, case.front, &pcm));
+    // a quarter of the cases write through a sink that performs short writes
+    let hcase = hash_str(&case.desc());
+    let max_write = if hcase % 4 == 0 { [1usize, 7, 64, 500][(hcase / 4 % 4) as usize] } else { 0 };
+    rep.count("sink", if max_write == 0 { "cursor".to_string() } else { format!("short-writes<={max_write}") });
+    let obs = mon::observe(|| if max_write == 0 { encode(cfg, case.front, &pcm) } else { encode_short_writes(cfg, case.front, &pcm, max_write) });
     rep.observe_cost(obs.cpu_us, obs.peak_alloc);
     let bytes = match obs.result {
         Err(p) => {
